@@ -628,6 +628,27 @@ class _Norm(ast.NodeTransformer):
             out.append(st)
         return out
 
+    def _default_idiom(self, stmts):
+        """N44: x = A if C else x  ->  if C: x = A      /      x = x if C else A  ->  if not C: x = A     (x a plain name)"""
+        out = []
+        for st in stmts:
+            if isinstance(st, ast.Assign) and len(st.targets) == 1 and isinstance(st.targets[0], ast.Name) and isinstance(st.value, ast.IfExp):
+                x = st.targets[0].id
+                v = st.value
+                same = lambda e: isinstance(e, ast.Name) and e.id == x
+                if same(v.orelse) and not same(v.body):
+                    test, val = v.test, v.body
+                elif same(v.body) and not same(v.orelse):
+                    test, val = self.visit(ast.UnaryOp(op=ast.Not(), operand=v.test)), v.orelse
+                else:
+                    out.append(st)
+                    continue
+                new = ast.If(test=test, body=[ast.copy_location(ast.Assign(targets=[ast.Name(id=x, ctx=ast.Store())], value=val), st)], orelse=[])
+                out.append(ast.fix_missing_locations(ast.copy_location(new, st)))
+            else:
+                out.append(st)
+        return out
+
     def _loops_to_comprehension(self, stmts):
         """N40: acc = []; for T in IT: [if C:] acc.append(E)   ->   acc = [E for T in IT if C]
         (acc a plain local that IT, C and E do not mention; the loop variable is dead after the loop)"""
@@ -688,7 +709,7 @@ class _Norm(ast.NodeTransformer):
         return out
 
     def _block(self, stmts):
-        stmts = self._copy_prop(self._next_to_for(self._genexp_to_loops(self._loops_to_comprehension(self._list_extends(self._split_tuples(stmts))))))
+        stmts = self._default_idiom(self._copy_prop(self._next_to_for(self._genexp_to_loops(self._loops_to_comprehension(self._list_extends(self._split_tuples(stmts)))))))
         out = []
         i = 0
         while i < len(stmts):
